@@ -40,6 +40,8 @@
 use crate::rand::{Rng, *};
 use crate::sparse::{Node, SparseMatrix};
 use crate::util::*;
+#[cfg(ldpc_toolbox_verif)]
+use crate::verif_seam::rayon;
 use rand::seq::IteratorRandom;
 use rayon::prelude::*;
 use std::fmt;
